@@ -39,8 +39,8 @@ type ggOpts struct {
 	aliasRoutes bool
 	// weightOps biases generation towards every operator family that reads weights or
 	// attribute-backed tensors (C17's quantifier)
-	weightOps bool
-	allOutputs  bool // declare every intermediate value as graph output
+	weightOps  bool
+	allOutputs bool // declare every intermediate value as graph output
 	// continuousOnly leaves out operators whose result is a discontinuous function of float inputs
 	// (comparisons, ArgMax, Cast to integers), so that metamorphic relations with a rounding
 	// tolerance cannot be upset by a legitimately flipped tie
@@ -344,6 +344,29 @@ func tMatMul(gg *ggraph, rt *rapid.T) bool {
 		return false
 	}
 	k := a.shape[len(a.shape)-1]
+	switch rapid.IntRange(0, 5).Draw(rt, "mmForm") {
+	case 0:
+		// a rank-1 weight as second operand: the contracted axis disappears from the result
+		b := gg.addInit(f32Init(rt, []int{k}, 1, "mmVecB"))
+		gg.emit("MatMul", []string{a.name, b.name}, []gv{gg.out(cloneInts(a.shape[:len(a.shape)-1]), a.dt, a.batch)})
+		gg.feat("matmul-vector-weight")
+		gg.mixing, gg.weighted = true, true
+		return true
+	case 1:
+		// a rank-1 weight as first operand contracts the second-to-last axis
+		if r := len(a.shape); a.batch != r-2 {
+			w := gg.addInit(f32Init(rt, []int{a.shape[r-2]}, 1, "mmVecA"))
+			out := append(cloneInts(a.shape[:r-2]), a.shape[r-1])
+			nb := a.batch
+			if nb == r-1 {
+				nb = r - 2
+			}
+			gg.emit("MatMul", []string{w.name, a.name}, []gv{gg.out(out, a.dt, nb)})
+			gg.feat("matmul-vector-weight")
+			gg.mixing, gg.weighted = true, true
+			return true
+		}
+	}
 	n := rapid.IntRange(1, 4).Draw(rt, "mmN")
 	b := gg.addInit(f32Init(rt, []int{k, n}, 1, "mmB"))
 	out := cloneInts(a.shape)
@@ -643,7 +666,9 @@ func tShapeCastConst(gg *ggraph, rt *rapid.T) bool {
 }
 
 func tConv(gg *ggraph, rt *rapid.T) bool {
-	x, ok := gg.pick(rt, "convX", func(v gv) bool { return isF32(v) && (len(v.shape) == 4 || len(v.shape) == 3) && v.batch == 0 && !v.init })
+	x, ok := gg.pick(rt, "convX", func(v gv) bool {
+		return isF32(v) && (len(v.shape) == 4 || len(v.shape) == 3) && v.batch == 0 && !v.init
+	})
 	if !ok {
 		return false
 	}
